@@ -231,11 +231,11 @@ def run (s : Sexp) : String :=
       | _ => ([], xs)
     match n.asNat?, parseL preS, parseL bodyS with
     | some n, some pre, some body =>
-      -- F-C20-1 (expression table leak) is repaired. F-C20-3 (open): a rule query whose SELECTED variable is inferred
-      -- pins what it ranged over; trigger = the history contains such a query
-      let ruleSel := (pre ++ body).any (fun op => match op with | .ruleq _ _ true => true | _ => false)
-      let trig := joinTrig [(ruleSel, "F-C20-3")]
-      s!"model={obs Quirks.asIs n pre body true}\tmodel_fixed={obs Quirks.asIs n pre body false}\tspec={specObs}\ttrig={trig}"
+      -- F-C20-1 (expression table leak) and F-C20-3 (lru_cache on a method of the query descriptor pinned the results of
+      -- rule queries with an inferred selected variable) are repaired in /repo: `model=` is the model without the
+      -- driver-level quirk, no open finding has a trigger here; `model_asfound=` keeps the quirk for the record
+      let trig := joinTrig []
+      s!"model={obs Quirks.asIs n pre body false}\tmodel_asfound={obs Quirks.asIs n pre body true}\tspec={specObs}\ttrig={trig}"
     | _, _, _ => "error=bad-case"
   | _ => "error=bad-case"
 end KrroodVerif.Drive.C20
